@@ -8,6 +8,7 @@ import PV.Generated.ShmBuffer
 `M` is the ring modulus (`buf->size`), the capacity is `S = M − 1`.  All theorems hold for every
 capacity `1 ≤ S < 2^31 − 1`, every position of `rd`/`wr` (so every wrap-around), every length.
 The `2^31` bound is the `(pint)` cast of the read result (API-inherent).
+Last section: the error exits taken when `p_shm_lock` / `p_shm_unlock` fail (`writeL`, `readL`, … with a `LockScript`).
 -/
 namespace PV.SB
 
@@ -207,4 +208,44 @@ theorem handles_with_unequal_size_disagree :
 example : WF 5 { rd := 3, wr := 1, data := [1, 2, 3, 4, 5] } := by
   refine ⟨by decide, by decide, by decide, by decide, by decide⟩
 
+/-! ## the lock calls of every operation fail (scripted): error exits of read / write / clear / space queries -/
+
+/-- without a scripted failure the locked operations are the plain ones -/
+theorem locked_ops_without_failure (M : Nat) (s : Shared) (xs : List UInt8) (len : Nat) :
+    writeL {} M s xs = write M s xs ∧ readL {} M s len = read M s len ∧ clearL {} M s = clear M s ∧
+    freeSpaceL {} M s = freeSpace M s ∧ usedSpaceL {} M s = usedSpace M s := by
+  refine ⟨?_, ?_, rfl, rfl, rfl⟩
+  · simp only [writeL, write]
+    split
+    · rfl
+    · simp only [Bool.false_eq_true, if_false]
+      split <;> simp_all
+  · simp only [readL, read]
+    split
+    · rfl
+    · simp only [Bool.false_eq_true, if_false]
+      split <;> simp_all
+
+/-- **a failing `p_shm_lock`**: the call reports −1 and the buffer (positions and bytes) is exactly as before -/
+theorem lock_failure_no_effect (u : Bool) (M : Nat) (s : Shared) (xs : List UInt8) (len n : Nat) :
+    writeL ⟨true, u⟩ M s xs = .ok s (-1) ∧ writeZerosL ⟨true, u⟩ M s n = .ok s (-1) ∧ readL ⟨true, u⟩ M s len = .ok s ([], -1) ∧
+    clearL ⟨true, u⟩ M s = s ∧ freeSpaceL ⟨true, u⟩ M s = -1 ∧ usedSpaceL ⟨true, u⟩ M s = -1 := by
+  refine ⟨?_, ?_, ?_, rfl, rfl, rfl⟩ <;> simp only [writeL, writeZerosL, readL] <;> split <;> rfl
+
+/-- **a failing `p_shm_unlock`**: −1 is reported although the operation took effect — the queue is the one after the
+    write / read (all-or-nothing append, oldest bytes removed), still well-formed -/
+theorem unlock_failure_keeps_effect {M : Nat} {s : Shared} (wf : WF M s) (xs : List UInt8) (len : Nat)
+    (hx : xs.length ≠ 0) (hl : len ≠ 0) :
+    (∃ s', writeL ⟨false, true⟩ M s xs = .ok s' (-1) ∧ WF M s' ∧ abs M s' = (Queue.write (M - 1) (abs M s) xs).1) ∧
+    (∃ s', readL ⟨false, true⟩ M s len = .ok s' ([], -1) ∧ WF M s' ∧ abs M s' = (Queue.read (abs M s) len).1) := by
+  obtain ⟨s1, r1, h1, w1, e1⟩ := write_refines wf xs
+  obtain ⟨s2, o2, r2, h2, w2, e2⟩ := read_refines wf len
+  refine ⟨⟨s1, ?_, w1, ?_⟩, ⟨s2, ?_, w2, ?_⟩⟩
+  · simp [writeL, hx, h1]
+  · rw [← e1]
+  · simp [readL, hl, h2]
+  · rw [← e2]
+
+example : writeL ⟨true, false⟩ 4 (init 4) [1, 2] = .ok (init 4) (-1) := by decide
+example : writeL ⟨false, true⟩ 4 (init 4) [1, 2] = .ok ⟨0, 2, [1, 2, 0, 0]⟩ (-1) := by decide
 end PV.SB
